@@ -39,6 +39,7 @@ import (
 	"github.com/BondMachineHQ/BondMachine/pkg/basm"
 	"github.com/BondMachineHQ/BondMachine/pkg/bmconfig"
 	"github.com/BondMachineHQ/BondMachine/pkg/bminfo"
+	"github.com/BondMachineHQ/BondMachine/pkg/bmnumbers"
 	"github.com/BondMachineHQ/BondMachine/pkg/bmreqs"
 	"github.com/BondMachineHQ/BondMachine/pkg/bondmachine"
 	"github.com/BondMachineHQ/BondMachine/pkg/procbuilder"
@@ -63,19 +64,20 @@ type procSpec struct {
 }
 
 type spec struct {
-	Kind      string     `json:"kind"` // family tag: iso:<opcode>, mix, so:<kind>x<k>, basm, ...
-	Rsize     int        `json:"rsize"`
-	Procs     []procSpec `json:"procs,omitempty"`
-	Sos       []string   `json:"sos,omitempty"`   // "barrier:0", "queue:4", ...
-	Links     [][2]int   `json:"links,omitempty"` // (processor, shared object)
-	Inputs    int        `json:"inputs,omitempty"`
-	Outputs   int        `json:"outputs,omitempty"`
-	Bonds     [][2]string `json:"bonds,omitempty"`
-	Flavor    string     `json:"flavor"`
-	HwOpt     []string   `json:"hwopt,omitempty"`
-	Commented bool       `json:"commented,omitempty"`
-	Basm      string     `json:"basm,omitempty"` // front-end produced machine: BASM source text
-	NilSimbox bool       `json:"nilsimbox,omitempty"`
+	Kind      string            `json:"kind"` // family tag: iso:<opcode>, mix, so:<kind>x<k>, basm, ...
+	Rsize     int               `json:"rsize"`
+	Procs     []procSpec        `json:"procs,omitempty"`
+	Sos       []string          `json:"sos,omitempty"`   // "barrier:0", "queue:4", ...
+	Links     [][2]int          `json:"links,omitempty"` // (processor, shared object)
+	Inputs    int               `json:"inputs,omitempty"`
+	Outputs   int               `json:"outputs,omitempty"`
+	Bonds     [][2]string       `json:"bonds,omitempty"`
+	Flavor    string            `json:"flavor"`
+	HwOpt     []string          `json:"hwopt,omitempty"`
+	Commented bool              `json:"commented,omitempty"`
+	Basm      string            `json:"basm,omitempty"` // front-end produced machine: BASM source text
+	NilSimbox bool              `json:"nilsimbox,omitempty"`
+	IOmap     map[string]string `json:"iomap,omitempty"` // board flavors: machine IO -> board port
 }
 
 func allOps() map[string]procbuilder.Opcode {
@@ -222,6 +224,9 @@ func emit(s *spec) {
 		}
 		iomap := new(bondmachine.IOmap)
 		iomap.Assoc = map[string]string{}
+		for k, v := range s.IOmap {
+			iomap.Assoc[k] = v
+		}
 		if err := bm.Write_verilog(conf, s.Flavor, iomap, nil, sb); err != nil {
 			return "err write_verilog: " + err.Error()
 		}
@@ -230,6 +235,7 @@ func emit(s *spec) {
 	os.Chdir(old)
 	if bm != nil {
 		out.Line("K %s", soFacts(bm))
+		out.Line("D %s", describe(bm))
 	}
 	out.Line("W %s", strings.ReplaceAll(res, "\n", " "))
 	// whatever was written is linted, also after a panic (the CLI leaves those files behind too)
@@ -257,7 +263,17 @@ func emit(s *spec) {
 			if ve, ok := err.(*vlog.Error); ok {
 				cls, pos, msg = ve.Class, fmt.Sprintf("%d:%d", ve.Pos.Line, ve.Pos.Col), ve.Msg
 			}
-			out.Line("P %s %s %s %s", n, cls, pos, strings.ReplaceAll(msg, "\n", " "))
+			srcLine := ""
+			if ve, ok := err.(*vlog.Error); ok {
+				ls := strings.Split(string(b), "\n")
+				if ve.Pos.Line >= 1 && ve.Pos.Line <= len(ls) {
+					srcLine = strings.Join(strings.Fields(ls[ve.Pos.Line-1]), " ")
+					if len(srcLine) > 160 {
+						srcLine = srcLine[:160]
+					}
+				}
+			}
+			out.Line("P %s %s %s %s ## %s", n, cls, pos, strings.ReplaceAll(msg, "\n", " "), srcLine)
 			for _, m := range moduleRe.FindAllStringSubmatch(string(b), -1) {
 				opaque = append(opaque, m[1])
 			}
@@ -293,6 +309,49 @@ func emit(s *spec) {
 		os.WriteFile(filepath.Join(dst, "spec.json"), js, 0o644)
 	}
 	os.RemoveAll(dir)
+}
+
+// describe: the machine as built (also for front-end produced machines), for the driver's
+// known-finding predicates
+func describe(bm *bondmachine.Bondmachine) string {
+	type pd struct {
+		Ops  []string `json:"ops"`
+		Mode string   `json:"mode"`
+		R    int      `json:"r"`
+		N    int      `json:"n"`
+		M    int      `json:"m"`
+		L    int      `json:"l"`
+		O    int      `json:"o"`
+		Thr  int      `json:"thr"`
+		Sos  []int    `json:"sos"`
+	}
+	type md struct {
+		Rsize int      `json:"rsize"`
+		Procs []pd     `json:"procs"`
+		Sos   []string `json:"sos"`
+	}
+	d := md{Rsize: int(bm.Rsize), Procs: []pd{}, Sos: []string{}}
+	for _, so := range bm.Shared_objects {
+		d.Sos = append(d.Sos, so.String())
+	}
+	for i, di := range bm.Processors {
+		dom := bm.Domains[di]
+		p := pd{Mode: "", R: int(dom.R), N: int(dom.N), M: int(dom.M), L: int(dom.L), O: int(dom.O), Thr: dom.Threaded, Ops: []string{}, Sos: []int{}}
+		if len(dom.Modes) > 0 {
+			p.Mode = dom.Modes[0]
+		}
+		for _, op := range dom.Op {
+			p.Ops = append(p.Ops, op.Op_get_name())
+		}
+		if i < len(bm.Shared_links) {
+			for _, l := range bm.Shared_links[i] {
+				p.Sos = append(p.Sos, l)
+			}
+		}
+		d.Procs = append(d.Procs, p)
+	}
+	js, _ := json.Marshal(d)
+	return string(js)
 }
 
 // soFacts: what the shared-object header model (BMV.So) is parameterised by, read from the built
@@ -331,7 +390,20 @@ func soFacts(bm *bondmachine.Bondmachine) string {
 	return sb.String()
 }
 
+// initLQ gives the linear-quantizer family a range table, as `-linear-data-range` does in the CLIs
+func initLQ() {
+	ranges := map[int]bmnumbers.LinearDataRange{1: {Max: 3.3}}
+	for i, t := range procbuilder.AllDynamicalInstructions {
+		if t.GetName() == "dyn_linear_quantizer" {
+			d := t.(procbuilder.DynLinearQuantizer)
+			d.Ranges = &ranges
+			procbuilder.AllDynamicalInstructions[i] = d
+		}
+	}
+}
+
 func main() {
+	initLQ()
 	if len(os.Args) < 4 {
 		fmt.Fprintln(os.Stderr, "usage: c18 gen <quick|thorough> <scratch-root> | c18 replay <file> <scratch-root> | c18 dump <file> <scratch-root> <outdir>")
 		os.Exit(2)
@@ -371,6 +443,7 @@ func main() {
 			emit(s)
 		}
 	}
+	out.Line("Z done %d", caseNo)
 	out.Flush()
 	os.RemoveAll(scratchRoot)
 }
